@@ -17,7 +17,7 @@ FILES = ["ops/map.rs", "ops/map_to.rs", "ops/filter.rs", "ops/filter_map.rs", "o
          "ops/take_while.rs", "ops/skip_while.rs", "ops/take_last.rs", "ops/skip_last.rs", "ops/last.rs", "ops/scan.rs", "ops/default_if_empty.rs",
          "ops/distinct.rs", "ops/pairwise.rs", "ops/buffer.rs", "ops/contains.rs", "ops/collect.rs", "ops/start_with.rs",
          "ops/merge.rs", "ops/zip.rs", "ops/combine_latest.rs", "ops/with_latest_from.rs", "ops/take_until.rs", "ops/skip_until.rs", "ops/sample.rs",
-         "ops/finalize.rs", "ops/group_by.rs", "ops/on_error.rs", "ops/on_complete.rs", "observer.rs", "subscriber.rs", "observable/subscribe_item.rs"]
+         "ops/finalize.rs", "ops/group_by.rs", "ops/on_error.rs", "ops/on_complete.rs", "observer.rs", "subscriber.rs", "observable/subscribe_item.rs", "observable.rs"]
 
 TOK = re.compile(r"""
    (?P<ws>\s+|//[^\n]*|/\*.*?\*/)
@@ -245,6 +245,9 @@ class P:
                         e = "(XField %s %s)" % (e, q(part))
             elif tok == "(":
                 e = "(XCall %s %s)" % (e, clist(self.args()))
+            elif tok == "as":
+                self.eat()
+                self.skip_type([",", ";", ")", "}", "]"])      # a cast changes no value the evaluator knows
             elif tok == "?":
                 self.eat()
                 e = "(XUnknown %s)" % q("question mark")
@@ -461,6 +464,13 @@ class P:
                 depth += tk == "["
                 depth -= tk == "]"
             return ""
+        if tok == "fn":                         # a function item inside a body: bound like a closure
+            self.eat()
+            name = self.eat()
+            while not self.at("{"):
+                self.eat()
+            self.block()
+            return "(SLet (PVar %s) (XClosure [] XUnit))" % q(name)
         if tok == "let":
             self.eat()
             p = self.pattern()
@@ -491,7 +501,8 @@ class P:
 
 
 def strip_tests(src):
-    i = src.find("#[cfg(test)]")
+    # the test module at the end of the file (a `#[cfg(test)]` on a single `use` or item further up stays)
+    i = src.find("#[cfg(test)]\nmod ")
     return src if i < 0 else src[:i]
 
 
@@ -513,6 +524,15 @@ def impls(toks):
     i, n = 0, len(toks)
     while i < n:
         t = toks[i][1]
+        if t == "trait" and i + 1 < n and re.match(r"[A-Z]\w*$", toks[i + 1][1]):
+            # the default methods of a trait: keyed by the trait's name
+            j = i + 1
+            while toks[j][1] != "{":
+                j += 1
+            end = find_matching(toks, j, "{", "}")
+            yield toks[i + 1][1], "", list(fns_in(toks, j, end))
+            i = end + 1
+            continue
         if t == "impl":
             j = i + 1
             # header up to the opening brace of the impl body (where-clauses may contain no braces)
@@ -559,37 +579,40 @@ def impls(toks):
                     elif depth == 0 and re.match(r"[A-Z$]\w*$", h):
                         ty = h
                         break
-            fns = []
-            k = j + 1
-            while k < end:
-                if toks[k][1] == "fn":
-                    name = toks[k + 1][1]
-                    m = k + 2
-                    if toks[m][1] == "<":
-                        d = 0
-                        while True:
-                            d += toks[m][1] == "<"
-                            d -= toks[m][1] == ">"
-                            m += 1
-                            if d == 0:
-                                break
-                    pe = find_matching(toks, m, "(", ")")
-                    params = param_names(toks[m + 1:pe])
-                    b = pe + 1
-                    while toks[b][1] not in ("{", ";"):
-                        b += 1
-                    if toks[b][1] == ";":
-                        k = b + 1
-                        continue
-                    be = find_matching(toks, b, "{", "}")
-                    fns.append((name, params, toks[b:be + 1]))
-                    k = be + 1
-                else:
-                    k += 1
-            yield ty, trait, fns
+            yield ty, trait, list(fns_in(toks, j, end))
             i = end + 1
             continue
         i += 1
+
+
+def fns_in(toks, j, end):
+    """the fn items directly inside the braces toks[j] .. toks[end]: (name, parameter names, body tokens)"""
+    k = j + 1
+    while k < end:
+        if toks[k][1] == "fn":
+            name = toks[k + 1][1]
+            m = k + 2
+            if toks[m][1] == "<":
+                d = 0
+                while True:
+                    d += toks[m][1] == "<"
+                    d -= toks[m][1] == ">" and toks[m - 1][1] != "-"
+                    m += 1
+                    if d == 0:
+                        break
+            pe = find_matching(toks, m, "(", ")")
+            params = param_names(toks[m + 1:pe])
+            b = pe + 1
+            while toks[b][1] not in ("{", ";"):
+                b += 1
+            if toks[b][1] == ";":
+                k = b + 1
+                continue
+            be = find_matching(toks, b, "{", "}")
+            yield name, params, toks[b:be + 1]
+            k = be + 1
+        else:
+            k += 1
 
 
 def param_names(toks):
